@@ -41,6 +41,8 @@ TOP = ('TOP',)
 NONE = ('NONE',)
 INT = ('INT',)
 BOOL = ('BOOL',)
+TRUE = ('BOOLT',)      # the constant True (flags: `first = True`, `advance = False` are decided, not guessed)
+FALSE = ('BOOLF',)
 ZERO = ('ZERO',)     # the integer constant 0 (an INT that is known to be zero)
 NUM = ('NUM',)
 STR = ('STR',)
@@ -49,8 +51,8 @@ CELL = ('CELL',)
 UNDEF = ('UNDEF',)
 SELF = ('SELF',)
 
-SCALARS = {INT, BOOL, NUM, STR, NONE, CMP, ZERO}
-INTS = {INT, BOOL, ZERO}
+SCALARS = {INT, BOOL, TRUE, FALSE, NUM, STR, NONE, CMP, ZERO}
+INTS = {INT, BOOL, TRUE, FALSE, ZERO}
 
 VTOP = frozenset([TOP])
 VNONE = frozenset([NONE])
@@ -143,6 +145,9 @@ def src_of(v, _depth=0):
                     if s.startswith('row:') and a[1] in ('list', 'tuple', 'set', 'deque') and \
                             any(b[0] in ('ROW', 'HDR') for b in a[3]):
                         return 'mat:' + s[4:]
+                    if a[1] in ('list', 'tuple') and all(b[0] in ('ARG', 'SELFATTR', 'TABLE', 'DATA') for b in a[3]):
+                        # a list / tuple of tables built here: iterating IT hands out the tables, it reads none of them
+                        return 'local:' + s
                     return s
     return '?'
 
@@ -327,7 +332,33 @@ class Analyzer(object):
             fa = FunctionAnalysis(self, fn)
             self._fa[fn] = fa
             fa.run()
+            cont = self._container_params(fn, fa)
+            if cont:
+                # a parameter whose ELEMENTS are opened with iter() is a sequence of tables (cat / stack / annex /
+                # mergesort / crossjoin take *tables): analyse again with its elements typed as tables, so that what
+                # comes out of them are rows, not cells of a row
+                fa2 = FunctionAnalysis(self, fn)
+                fa2.entry_overrides = {p: V(('FRESH', 'argtuple', 'param:' + p, V(('TABLE', p + '[]')))) for p in cont}
+                fa2.container_params = set(cont)
+                self._fa[fn] = fa2
+                fa2.run()
+                fa = fa2
         return fa
+
+    def _container_params(self, fn, fa):
+        params = set(fn.params) | ({fn.vararg} if fn.vararg else set())
+        out = set()
+        try:
+            events = fa.observe()
+        except Exception:
+            return out
+        for ev in events:
+            if ev.kind == 'iter' and isinstance(ev.node, ast.Call) and isinstance(ev.node.func, ast.Name) and \
+                    ev.node.func.id == 'iter':
+                for a in ev.info.get('arg') or ():
+                    if a[0] == 'ROW' and a[1] in params:
+                        out.add(a[1])
+        return out
 
     def summary(self, fn):
         s = self._summ.get(fn)
@@ -339,6 +370,12 @@ class Analyzer(object):
         try:
             fa = FunctionAnalysis(self, fn, summarising=True)
             fa.run()
+            cont = self._container_params(fn, fa)
+            if cont:
+                fa = FunctionAnalysis(self, fn, summarising=True)
+                fa.entry_overrides = {p: V(('FRESH', 'argtuple', 'param:' + p, V(('TABLE', p + '[]')))) for p in cont}
+                fa.container_params = set(cont)
+                fa.run()
             s = Summary()
             s.ret = fa.return_value()
             s.mutates = fa.mutated_params()
@@ -510,7 +547,8 @@ class FunctionAnalysis(BaseDomain):
                 kinds.add(ANY)
                 if self._is_next_call(n) and len(n.args) == 1:
                     v = self.eval_pure(n.args[0], st)
-                    if iter_state(v) != 'H':
+                    if iter_state(v) != 'H' or any(a[0] == 'ITER' and a[1].endswith('[]') for a in v):
+                        # (an element of a sequence parameter may be any iterable, also one without a first item)
                         kinds.add('StopIteration')
                 else:
                     # calls into petl helpers that may let StopIteration out
@@ -729,11 +767,11 @@ class FunctionAnalysis(BaseDomain):
             return st
         if isinstance(test, ast.Name) and test.id in st:
             if truth:
-                v = frozenset(a for a in st[test.id] if a != NONE and a != ZERO)
+                v = frozenset(a for a in st[test.id] if a != NONE and a != ZERO and a != FALSE)
                 if not v:
                     return None
             else:
-                v = frozenset(a for a in st[test.id] if a[0] not in ('SENT', 'FUNC', 'KEYFN', 'TRUTHY', 'CSENT'))
+                v = frozenset(a for a in st[test.id] if a[0] not in ('SENT', 'FUNC', 'KEYFN', 'TRUTHY', 'CSENT', 'BOOLT'))
                 if not v:
                     return None
             if v != st[test.id]:
@@ -892,7 +930,7 @@ class FunctionAnalysis(BaseDomain):
         if c is None:
             return VNONE
         if isinstance(c, bool):
-            return VBOOL
+            return V(TRUE) if c else V(FALSE)
         if isinstance(c, int):
             return V(ZERO) if c == 0 else VINT
         if isinstance(c, float):
